@@ -91,8 +91,8 @@ Fixpoint upto (k : nat) : list nat := match k with O => [] | S k' => upto k' ++ 
 Definition tabulate (k : N) (f : nat -> value) : list value := map f (upto (N.to_nat k)).
 Definition tabulate_kv (k : N) (f : nat -> value * value) : list (value * value) := map f (upto (N.to_nat k)).
 
-(* #[derive(MessageBody)] struct DA { arr: [String; 2], tag: u16, opt: Option<[u8; 3]> } *)
-Definition decl_DA : decl := {| dname := 20; dgen := 0; ddata := DStruct (FNamed [(1, 1); (2, 2); (3, 3)]) |}.
+(* #[derive(MessageBody)] struct DA { arr: [String; 2], tag: u16, opt: Option<[u8; 3]>, _pad: u32 } *)
+Definition decl_DA : decl := {| dname := 20; dgen := 0; ddata := DStruct (FNamed [(1, 1); (2, 2); (3, 3); (4, 4)]) |}.
 
 (* the static slice the harness cuts from: [None, Some(1), Some(2), None, Some(4), None, Some(6)] of Option<u32> *)
 Definition static_opts : list value :=
@@ -113,7 +113,8 @@ Definition fam_value (fam : N) (ns : list N) : value :=
            {| rv_variant := 0;
               rv_named := [(1, std_byte_len (VSeq CArray [str (l 0%nat); str (l 1%nat)]));
                            (2, std_byte_len (VPrim PU16));
-                           (3, std_byte_len (opt (l 2%nat) (VSeq CArray [VPrim PU8; VPrim PU8; VPrim PU8])))];
+                           (3, std_byte_len (opt (l 2%nat) (VSeq CArray [VPrim PU8; VPrim PU8; VPrim PU8])));
+                           (4, std_byte_len (VPrim PU32))];
               rv_pos := [] |}))
   | 9 => VSeq CLinkedList (tabulate (l 0%nat mod 4)                                       (* LinkedList<(u16, Option<String>)> *)
            (fun i => VTuple [VPrim PU16; opt (l (1 + 2 * i)%nat) (str (l (2 + 2 * i)%nat))]))
